@@ -9,8 +9,10 @@ PROP = {
         "the model tree of an item is read back from the constructed item through its public accessors (ToInt/ToFloat/...); float and %q texts on the case line are Go's own strconv output",
     ],
     "assumptions": [
-        "oracle ffmt = strconv.FormatFloat(v,'G',9|17,32|64) and oracle quote = strconv.Quote (code outside go-secs): C15_identical holds for EVERY function in their place (no law needed); fmt's %q verb and strconv.Quote are taken to be the same function, which the correspondence confirms on every generated localized string",
+        "C15_identical holds for EVERY function in place of strconv.FormatFloat and strconv.Quote (no law needed: both renderers call the same function on the same values); fmt's %q verb and strconv.Quote are taken to be the same function, which the correspondence confirms on every generated localized string",
+        "C15_readback (floats only) carries two explicit premises about strconv, validated by the C13 harness on every generated float: FormatFloat 'G' text is non-empty and uses only [0-9A-Za-z+.-]; ParseFloat of it returns the same wire value (NaN for NaN). Integers, booleans and binary bytes need no premise.",
         "integer text: strconv.FormatInt/FormatUint/Itoa and ParseInt/ParseUint (base 0) are modelled in Base/Decimal.v and validated against strconv by the N case lines and by the text comparison of every case",
         "an item's storage is what the constructors and the decoder establish (size, scalar when size = 1, values otherwise); items built by struct literal from outside the package are outside the model",
+        "the parser model used by C15_readback is Sml/StrictParser.v; value items are parsed by the same code in strict and non-strict mode (tie: the C13 correspondence on ParseStrict, and this harness reads every rendered leaf back with sml.Parse)",
     ],
 }
